@@ -9,13 +9,15 @@ C04 — completeness of the update procedure for well-formed responses.
                       (from C05's `single_fresh_frags` / `multipart_complete_frags_null`);
   `loop_complete`     the fetch loop ends without error and with every chunk valid (induction on the number of marks still 0);
   `afterHeader_complete`, `update_complete`   the procedure ends without error with the target = B, or a collision is exhibited.
-Hypotheses that remain: `Honest` (regex semantics + two facts about the response text), `Marks` (after scan, copy and reset
-there is one mark per chunk, 0 or 1, and chunks without stored bytes are valid).
+  `marks_of_scan`     after scan, copy from the old file and reset there is one mark per chunk, each 0 or 1 (`Marks`), for any
+                      target and old file; `update_converges` is the headline with that discharged.
+Hypotheses that remain: `Honest` (regex semantics + two facts about the response text) and that the scan marked the chunks
+without stored bytes valid (in a file the writer produces only the empty dictionary entry is such a chunk).
 -/
 import ZckModel.Props.C04Req
 import ZckModel.Props.C05Feed
 namespace Zck.C04
-open Zck Zck.Format Zck.Dl Zck.Copy Zck.C05 Zck.Update
+open Zck Zck.Format Zck.Dl Zck.Copy Zck.C05 Zck.Update Zck.Reader
 
 /-! ### the transport's pieces are a partition into non-empty fragments -/
 
@@ -1189,5 +1191,194 @@ theorem update_complete (H : HashFn) (rx : Rx) (A : Option Bytes) (B : Bytes) (l
     rw [hBlen]; have := hs.2.2.2.2; unfold W64; omega
   have hc := afterHeader_complete H rx A B limit frag o t2 th hrun hbound ho hsc0 hsc1 hmarks hBsmall hBok hon
   exact ⟨hc.1, update_yields_B H rx A B limit frag none o t2 th hh hA hBlen hBhdr hBok hc.1 hc.2⟩
+
+
+/-! ### the marks after scan, copy and reset -/
+
+/-- every mark is 0 (missing), 1 (valid) or -1 (failed) -/
+def Tri (v : List Int) : Prop := ∀ x ∈ v, x = 0 ∨ x = 1 ∨ x = -1
+
+theorem tri_set (v : List Int) (k : Nat) (x : Int) (h : Tri v) (hx : x = 0 ∨ x = 1 ∨ x = -1) : Tri (v.set k x) := by
+  intro y hy
+  rcases List.mem_or_eq_of_mem_set hy with h1 | h1
+  · exact h y h1
+  · rw [h1]; exact hx
+
+theorem scanValue_tri (H : HashFn) (hdr : Hdr) (ch : Chunk) (got : Bytes) (tr : Bool) :
+    scanValue H hdr ch got tr = 1 ∨ scanValue H hdr ch got tr = -1 := by
+  unfold scanValue
+  cases H hdr.chunkHashType got with
+  | none => right; rfl
+  | some d =>
+    simp only
+    generalize (if ch.compLen = 0 then zeros d.length else d) = d'
+    by_cases ht : tr = true
+    · right; simp [ht]
+    · by_cases hd : d' = ch.digest
+      · left; simp [ht, hd]
+      · right; simp [ht, hd]
+
+theorem scanLoop_tri (H : HashFn) (f : Bytes) (hdr : Hdr) (useFull : Bool) :
+    ∀ (cs : List Chunk) (k pos : Nat) (full : Option Bytes) (valid : List Int) (ag : Bool), Tri valid →
+      Tri (scanLoop H f hdr useFull cs k pos full valid ag).2.2.1 ∧
+      (scanLoop H f hdr useFull cs k pos full valid ag).2.2.1.length = valid.length := by
+  intro cs
+  induction cs with
+  | nil => intro _ _ _ valid _ h; exact ⟨h, rfl⟩
+  | cons c cs ih =>
+    intro k pos full valid ag h
+    unfold scanLoop
+    split
+    · have h1 : Tri (setValid valid 0 1) := tri_set valid 0 1 h (Or.inr (Or.inl rfl))
+      have hl : (setValid valid 0 1).length = valid.length := by simp [setValid]
+      simp only
+      split
+      · exact ⟨h1, hl⟩
+      · have := ih (k + 1) pos full (setValid valid 0 1) ag h1
+        exact ⟨this.1, by rw [this.2, hl]⟩
+    · simp only
+      have hv := scanValue_tri H hdr c (readPieces f pos c.compLen).1 (readPieces f pos c.compLen).2.2
+      have h1 : Tri (setValid valid k (scanValue H hdr c (readPieces f pos c.compLen).1 (readPieces f pos c.compLen).2.2)) :=
+        tri_set valid k _ h (by rcases hv with h' | h' <;> rw [h'] <;> simp)
+      have hl : (setValid valid k (scanValue H hdr c (readPieces f pos c.compLen).1 (readPieces f pos c.compLen).2.2)).length = valid.length := by
+        simp [setValid]
+      split
+      · exact ⟨h1, hl⟩
+      · rename_i hdet
+        refine ⟨?_, ?_⟩
+        · exact (ih (k + 1) _ _ _ _ h1).1
+        · rw [(ih (k + 1) _ _ _ _ h1).2, hl]
+
+theorem validateChecksums_tri (H : HashFn) (f : Bytes) (c : Ctx) (h : Tri c.valid) :
+    Tri (validateChecksums H f c).2.valid ∧ (validateChecksums H f c).2.valid.length = c.valid.length := by
+  unfold validateChecksums
+  split
+  · exact ⟨h, rfl⟩
+  · have hs := fun u => scanLoop_tri H f c.hdr u c.hdr.chunks 0 (dataOff c) (some []) c.valid true h
+    simp only
+    generalize hu : (decide ¬flag4 c = true) = u
+    have hsu := hs u
+    generalize scanLoop H f c.hdr u c.hdr.chunks 0 (dataOff c) (some []) c.valid true = r at hsu
+    obtain ⟨r1, r2, r3, r4⟩ := r
+    simp only at hsu ⊢
+    have hall : Tri (List.map (fun _ => (-1 : Int)) r3) ∧ (List.map (fun _ => (-1 : Int)) r3).length = c.valid.length := by
+      refine ⟨?_, by simp [hsu.2]⟩
+      intro x hx
+      simp only [List.mem_map] at hx
+      obtain ⟨_, _, rfl⟩ := hx
+      right; right; rfl
+    by_cases h1 : flag4 c ∨ c.hdr.detached = true
+    · simp only [h1, ↓reduceIte]; exact hsu
+    · simp only [h1, ↓reduceIte]
+      by_cases h2 : r4 = true
+      · simp only [h2, ↓reduceIte]
+        split
+        · split
+          · exact hsu
+          · exact hall
+        · simp only [Bool.false_eq_true, ↓reduceIte]; exact hall
+      · simp only [h2, ↓reduceIte]; exact hsu
+
+theorem openCtx_tri (th : Hdr) : Tri (openCtx th).valid ∧ (openCtx th).valid.length = th.chunks.length := by
+  unfold openCtx
+  refine ⟨?_, by simp⟩
+  intro x hx
+  simp only [List.mem_map] at hx
+  obtain ⟨_, _, rfl⟩ := hx
+  left; rfl
+
+theorem writeAndVerify_tri (H : HashFn) (srcF : Bytes) (src tgtH : Hdr) (t : Tgt) (k : Nat) (sc tc : Chunk) (h : Tri t.valid) :
+    Tri (writeAndVerify H srcF src tgtH t k sc tc).valid ∧ (writeAndVerify H srcF src tgtH t k sc tc).valid.length = t.valid.length := by
+  unfold writeAndVerify
+  simp only
+  split
+  · exact ⟨h, rfl⟩
+  · split
+    · exact ⟨tri_set _ _ _ h (Or.inr (Or.inl rfl)), by simp⟩
+    · exact ⟨tri_set _ _ _ h (Or.inr (Or.inr rfl)), by simp⟩
+
+theorem copyLoop_tri (H : HashFn) (srcF : Bytes) (src tgtH : Hdr) : ∀ (cs : List Chunk) (k : Nat) (t : Tgt), Tri t.valid →
+    Tri (copyLoop H srcF src tgtH cs k t).valid ∧ (copyLoop H srcF src tgtH cs k t).valid.length = t.valid.length
+  | [], _, t, h => by unfold copyLoop; exact ⟨h, rfl⟩
+  | tc :: rest, k, t, h => by
+    unfold copyLoop
+    simp only
+    have hstep : Tri (if t.valid.getD k 0 = 1 then t else
+        match findSrc src tc.digest with
+        | some sc => if sc.len = tc.len ∧ sc.compLen = tc.compLen then writeAndVerify H srcF src tgtH t k sc tc else t
+        | none => t).valid ∧
+        (if t.valid.getD k 0 = 1 then t else
+        match findSrc src tc.digest with
+        | some sc => if sc.len = tc.len ∧ sc.compLen = tc.compLen then writeAndVerify H srcF src tgtH t k sc tc else t
+        | none => t).valid.length = t.valid.length := by
+      split
+      · exact ⟨h, rfl⟩
+      · split
+        · split
+          · exact writeAndVerify_tri H srcF src tgtH t k _ tc h
+          · exact ⟨h, rfl⟩
+        · exact ⟨h, rfl⟩
+    have ih := copyLoop_tri H srcF src tgtH rest (k + 1) _ hstep.1
+    exact ⟨ih.1, ih.2.trans hstep.2⟩
+
+theorem copyFrom_tri (H : HashFn) (A : Option Bytes) (th : Hdr) (t : Tgt) (h : Tri t.valid) :
+    Tri (copyFrom H A th t).valid ∧ (copyFrom H A th t).valid.length = t.valid.length := by
+  unfold copyFrom
+  cases A with
+  | none => exact ⟨h, rfl⟩
+  | some a =>
+    simp only
+    cases Header.openFile H a with
+    | ok ah => exact copyLoop_tri H a ah th th.chunks 0 t h
+    | err => exact ⟨h, rfl⟩
+    | oob _ => exact ⟨h, rfl⟩
+
+theorem resetFailed_bin (v : List Int) (h : Tri v) (k : Nat) : (resetFailed v).getD k 0 = 0 ∨ (resetFailed v).getD k 0 = 1 := by
+  unfold resetFailed
+  simp only [List.getD_eq_getElem?_getD, List.getElem?_map]
+  cases hk : v[k]? with
+  | none => left; rfl
+  | some x =>
+    have hx : x ∈ v := List.mem_of_getElem? hk
+    simp only [Option.map_some, Option.getD_some]
+    rcases h x hx with h0 | h1 | h2
+    · left; simp [h0]
+    · right; simp [h1]
+    · left; simp [h2]
+
+/-- **the marks the fetch loop starts from**: after the scan, the copy from the old file and the reset of failed chunks there is
+one mark per chunk, each 0 or 1 — for ANY target and old file; chunks without stored bytes are valid if the scan marked them so -/
+theorem marks_of_scan (H : HashFn) (A : Option Bytes) (t2 : Bytes) (th : Hdr)
+    (hzero : ∀ k c, th.chunks[k]? = some c → c.compLen = 0 →
+      (validateChecksums H t2 (openCtx th)).2.valid.getD k 0 = 1) :
+    Marks th (resetFailed (copyFrom H A th ⟨t2, (validateChecksums H t2 (openCtx th)).2.valid⟩).valid) := by
+  have h1 := validateChecksums_tri H t2 (openCtx th) (openCtx_tri th).1
+  have h2 := copyFrom_tri H A th ⟨t2, (validateChecksums H t2 (openCtx th)).2.valid⟩ h1.1
+  refine ⟨?_, resetFailed_bin _ h2.1, ?_⟩
+  · unfold resetFailed
+    rw [List.length_map, h2.2]
+    simp only
+    rw [h1.2, (openCtx_tri th).2]
+  · intro k c hc hz
+    exact resetFailed_keeps _ k (copyFrom_keeps H A th _ k (hzero k c hc hz))
+
+/-- **C04 (headline, soundness + completeness)**: the header of `B` is in place in the target `t2` and parses; the old file (if any)
+has the same chunk checksum type; `B` has the length the header prescribes and every chunk of the index present; the scan left
+something to do and marked the chunks without stored bytes valid; every response is well formed (`Honest`).  Then for ANY target
+bytes behind the header, ANY old file, limit and fragment size the procedure ends WITHOUT error and leaves the target
+BYTE-IDENTICAL to `B` — or two different byte strings with the same chunk checksum exist. -/
+theorem update_converges (H : HashFn) (rx : Rx) (A : Option Bytes) (B : Bytes) (limit : Int) (frag : Nat) (o : Out)
+    (t2 : Bytes) (th : Hdr) (hh : HdrOk H t2 th) (ho : o.err = none)
+    (hA : ∀ a ah, A = some a → Header.openFile H a = .ok ah → ah.chunkHashType = th.chunkHashType)
+    (hBlen : B.length = th.lead + th.headerLen + th.dataLen)
+    (hBhdr : ∀ i, i < th.lead + th.headerLen → B.getD i 0 = t2.getD i 0)
+    (hBok : AllPresent (envOf H rx th []) B)
+    (hsc0 : (Reader.validateChecksums H t2 (Reader.openCtx th)).1 ≠ 0)
+    (hsc1 : (Reader.validateChecksums H t2 (Reader.openCtx th)).1 ≠ 1)
+    (hzero : ∀ k c, th.chunks[k]? = some c → c.compLen = 0 → (validateChecksums H t2 (openCtx th)).2.valid.getD k 0 = 1)
+    (hon : ∀ n valid', Marks th valid' → Honest rx (n + 1) B.length (reqOf th limit valid').items) :
+    let out := afterHeader H rx A B limit frag none o t2 th
+    out.err = none ∧ (out.file = B ∨ Collision H th.chunkHashType) :=
+  update_complete H rx A B limit frag o t2 th hh ho hA hBlen hBhdr hBok hsc0 hsc1 (marks_of_scan H A t2 th hzero) hon
 
 end Zck.C04
